@@ -518,6 +518,14 @@ func checkFullRead(c *Ctx, rule string, pkgs ...string) {
 				R.OK(rule, key, P.InstrPos(call), "transport read through io.ReadAtLeast with min = len(buf) (all-or-error)")
 				return
 			}
+			if name == "bufio.NewReader" || name == "bufio.NewReaderSize" {
+				// a buffered reader reads ahead: it must live as long as the connection (kept in a field, returned), not be a
+				// temporary around one read - the bytes it buffered beyond that read would be lost with it
+				if !retained(call, 0) {
+					R.Fail(rule, key, P.InstrPos(call), "the transport is read through a throw-away bufio.Reader: it reads ahead of the item it is created for and the surplus (the start of the next item) is dropped with it", nil)
+					return
+				}
+			}
 			if why, ok := allowed[name]; ok {
 				R.OK(rule, key, P.InstrPos(call), "transport read through "+name+" ("+why+")")
 			} else {
@@ -725,4 +733,47 @@ func loadAddr(v ssa.Value) ssa.Value {
 		return u.X
 	}
 	return v
+}
+
+
+// retained: the value is stored somewhere that outlives the call (a field, a global, a returned value), directly or
+// through a wrapper built from it.
+func retained(v ssa.Value, d int) bool {
+	if d > 4 {
+		return false
+	}
+	refs := v.Referrers()
+	if refs == nil {
+		return false
+	}
+	for _, r := range *refs {
+		switch x := r.(type) {
+		case *ssa.Store:
+			if x.Val == v {
+				return true
+			}
+		case *ssa.Return:
+			return true
+		case *ssa.MakeInterface:
+			if retained(x, d+1) {
+				return true
+			}
+		case *ssa.ChangeInterface:
+			if retained(x, d+1) {
+				return true
+			}
+		case *ssa.Phi:
+			if retained(x, d+1) {
+				return true
+			}
+		case *ssa.Call:
+			if f := x.Call.StaticCallee(); f != nil && (core.FullName(f) == "bufio.NewReadWriter" || core.InModule(f)) {
+				// handed to a constructor whose result is kept
+				if retained(x, d+1) {
+					return true
+				}
+			}
+		}
+	}
+	return false
 }
